@@ -298,3 +298,23 @@ Proof.
   intros H. apply decode_all_drained. unfold decode1 in H.
   destruct (decode1_raw b) as [[? ?]|]; [discriminate | reflexivity].
 Qed.
+
+(* ---- progress: every decoded frame consumes at least the 7 header bytes (no spinning on input) ---- *)
+Lemma decode_all_raw_progress (b : bytes) :
+  (7 * length (fst (decode_all_raw b)) + length (snd (decode_all_raw b)) <= length b)%nat.
+Proof.
+  induction b as [b IH] using bytes_len_ind.
+  rewrite decode_all_raw_unfold.
+  destruct (decode1_raw b) as [[f rest]|] eqn:E.
+  - specialize (IH rest (decode1_raw_shorter _ _ _ E)).
+    pose proof (decode1_raw_consumes _ _ _ E) as Hc. unfold lenN in Hc.
+    destruct (decode_all_raw rest) as [fs r]. cbn [fst snd length] in *. lia.
+  - cbn. lia.
+Qed.
+
+Lemma decode_all_progress (b : bytes) :
+  (7 * length (fst (decode_all b)) + length (snd (decode_all b)) <= length b)%nat.
+Proof.
+  pose proof (decode_all_raw_progress b) as H. unfold decode_all.
+  destruct (decode_all_raw b) as [fs r]. cbn [fst snd] in *. rewrite map_length. exact H.
+Qed.
